@@ -207,8 +207,10 @@ def prop_sampler(case, rec):
                         # the mid-point of the structure's interval must select it
                         raise Violation('base_selection', f'mid-point draw {ub!r} of structure #{bi} {toks} selected {[x for x, _ in pt["pt"]]}', case)
                     ok, idx = expected_index(vcum, Fraction(u))
-                    if idx is None:
-                        ok = set(range(len(vcum)))          # above the exact total (rounding): any group is acceptable
+                    if idx is None or Fraction(u) >= vcum[-1] * (1 - Fraction(1, 10 ** 12)):
+                        # at or above the total up to rounding (the tool's left-to-right float sum can end one ulp below the
+                        # draw, in which case it keeps group 0): a region of measure ~1e-16, any group is accepted there
+                        ok = set(range(len(vcum)))
                     if pt['pt'][k][1] not in ok:
                         raise Violation('group_selection', f'structure {toks} position {k} ({t}) draw u={u!r}: selected group {pt["pt"][k][1]}, expected {sorted(ok)} '
                                         f'(cumulative {[float(c) for c in vcum]})', case)
